@@ -414,6 +414,8 @@ def c04(ctx):
     # WebSocket: ws: must not carry credentials unless insecure mode is on; wss: only after the dial accepted the certificate
     gens.append(dict(configs="CfgC04ws", conns=1 if q else 2, f1=S("tls", "tlsreq", "notls"), tlsr=S("proceed"), certs=S("valid", "wronghost", "untrusted", "expired"),
                      f2=S("mech"), authr=S("success", "failure"), f3=S("b"), resr=S("resumed"), bindr=S("result"), sessr=S("result"), enr=S("enabled")))
+    gens.append(dict(configs="CfgC04wssn", conns=1, f1=S("notls"), tlsr=S("proceed"), certs=S("valid", "wronghost", "untrusted"),
+                     f2=S("mech"), authr=S("success"), f3=S("b"), resr=S("resumed"), bindr=S("result"), sessr=S("result"), enr=S("enabled")))
     ctx.notes["bounds"] = "Insecure on/off x TLS config {none, CA, CA+ServerName, CA+other ServerName, InsecureSkipVerify} x STARTTLS {not offered, offered, required} x reply {proceed, failure, unexpected, garbage, close} x certificate {valid, wrong host, untrusted, expired, not TLS}; plus 2 (thorough 3) connections on one client object; WebSocket transport: ws:/wss: x Insecure on/off x certificate {valid, wrong host, untrusted, expired}; after the scripted replies the server stays lenient (answers any further request with success) so that a confused client shows what it would send"
     neg_check(ctx, gens)
 
@@ -427,6 +429,10 @@ def c11(ctx):
     if not q:
         gens.append(dict(configs="CfgC11b", conns=4, f3=S("bm", "b"), resr=S("resumed", "resumedother", "failed", "other"),
                          enr=S("enabled", "enablednoresume", "failed"), **base))
+    # after a refused resumption the fresh bind fails too (conflict, closed): the refused id must be gone all the same
+    gens.append(dict(configs="CfgC11", conns=3, f1=S("notls"), tlsr=S("proceed"), certs=S("valid"), f2=S("mech"), authr=S("success"),
+                     f3=S("bm"), resr=S("resumed", "failed", "faileditem"), bindr=S("result", "error", "close"), sessr=S("result"),
+                     enr=S("enabled", "failed")))
     gens.append(dict(configs="CfgC11ws", conns=3, f3=S("bm", "b"), resr=S("resumed", "resumedother", "failed", "faileditem", "close"),
                      enr=S("enabled", "enablednoresume"), **base))
     ctx.notes["bounds"] = "all histories of %d connections on one client (Connect and Resume as reconnect entry points), stream management advertised or not on each, <enabled> with/without resumption, every reply to <resume/> {resumed same id, other id, failed, failed+item-not-found, failed with each of 29 conditions and a text, unexpected, closed}, 0..2 stanzas received per session" % (3 if q else 4)
@@ -442,6 +448,9 @@ def c14(ctx):
             # mechanism lists change between connections of one client
             dict(configs="CfgC14", conns=2, f1=S("notls"), tlsr=S("proceed"), certs=S("valid"), f2=S("mech"),
                  authr=S("success"), f3=S("b"), resr=S("resumed"), bindr=S("result"), sessr=S("result"), enr=S("enabled"), mechs="MechAll")]
+    # the same over the WebSocket transport (with and without a stream logger: every third scenario has one)
+    gens.append(dict(configs="CfgC14ws", conns=1, f1=S("notls"), tlsr=S("proceed"), certs=S("valid"), f2=S("mech"),
+                     authr=S("success", "failure"), f3=S("b"), resr=S("resumed"), bindr=S("result"), sessr=S("result"), enr=S("enabled"), mechs="MechAll"))
     ctx.notes["bounds"] = "both credential kinds x 11 server mechanism lists (empty, unknown only, duplicates, both orders, wrong case) x every reply to <auth/>; two connections with independent lists; user names and secrets from byte classes (NUL-adjacent, non-ASCII, XML metacharacters, leading/trailing whitespace, long)"
     neg_check(ctx, gens, driver_args=["-creds"])
 
@@ -451,7 +460,8 @@ def comp_cfg(conns, maxstz, stz, emit=True):
     return """SPECIFICATION Spec
 CONSTANTS
   IdClasses = {"plain", "escaped", "nonascii", "long", "ctrl", "absent"}
-  Replies = {"handshake", "err-conflict", "err-host-unknown", "err-not-authorized", "other", "malformed", "close", "streamclose"}
+  Replies = {"handshake", "err-conflict", "err-host-unknown", "err-not-authorized", "other", "malformed", "close", "streamclose",
+             "hs-trunc", "hs-text-close", "hs-streamclose", "hs-badend", "hs-badentity"}
   MaxConns = %d
   MaxStz = %d
   StzKinds = %s
